@@ -10,4 +10,8 @@ def run(ctx):
     ca.filter_first(ctx, "J1939_21")
     ca.filter_first(ctx, "J1939_22")
     ca.subscriber_rule(ctx)
+    from rules import transport as T, layout as LY
+    ctx.rule("R-DELIVER-ARGS", "single-frame delivery hands listeners the frame's own fields (destination decides who is addressed)", floor=4)
+    for fd in (False, True):
+        LY.deliver_args(ctx, T.Layer(ctx, fd=fd))
     return "listener gate, destination filter dominance and the per-listener delivery formula decided for all 256 addresses"
